@@ -295,7 +295,7 @@ func c04Secs(w *W, y, m, d int) {
 	w.Class(fmt.Sprintf("secs/%s", ymd(y, m, d)))
 	for sec := 0; sec < 86400; sec++ {
 		t := ref.Stamp{Y: y, M: m, D: d, H: sec / 3600, Mi: sec % 3600 / 60, S: sec % 60}
-		c04Second(w, t, sec%97 == 0 || sec >= 86340 || sec < 60)
+		c04Second(w, t, sec%97 == 0 || sec >= 86340 || sec < 60 || sec%3600 >= 3598 || sec%3600 == 0)
 		w.Distinct(1)
 	}
 	w.Sample("secs", map[string]interface{}{"day": ymd(y, m, d), "seconds": 86400, "real_jd_offsets_s": []float64{-0.4, 0.4, 0.6, -0.6, 0.999, 0.3}})
